@@ -388,7 +388,7 @@ def idx_grid(ctx, exe, model_ok):
             else:
                 dist = rng.randrange(pos, pos + size - 288)          # wrapped: index = pos - dist - 1 + size - 288 >= 0
             lines.append("idx dget %d %d %d" % (pos, size, dist))
-    for ln_ in range(0, 280):
+    for ln_ in range(2, 280):
         lines.append("idx dstate %d" % ln_)
     res = run_chunk(exe, lines)
     c_out = [o for _, o, _ in res]
@@ -443,11 +443,18 @@ def run(ctx):
     if not okb:
         ctx.obligation_broken("stage B: /repo does not build", logb)
         return "proof (partial)"
-    okg, log = vlib.gen_probe("gen_c04", "gen_c04.c", "XzVerif.Gen.C04", variant="asan", tu=TU)
+    okg, log = vlib.gen_probe("gen_c04", "gen_c04.c", "XzVerif.Gen.C04", variant="asan", tu=TU,
+                              extra=["-ffunction-sections", "-fdata-sections", "-Wl,--gc-sections"])
     if not okg:
         ctx.obligation_broken("stage G: Gen/C04.lean cannot be regenerated from the LZMA decoder sources", log)
     # P
     p_ok = ctx.lean_stage(["XzVerif.Props.C04"], exes=["xzm_c04"]) if okg else False
+    # `decoders_total` rests on the cited models being plain total `def`s: no `partial` anywhere in what the proofs import
+    for mod, path in sorted(vlib.local_imports("XzVerif.Props.C04").items()):
+        src = vlib.strip_lean_comments(open(path).read())
+        if re.search(r"\bpartial\s+def\b", src) and mod != "XzVerif.Model.Proto":
+            ctx.obligation_broken("decoders_total: `partial def` in " + mod, mod)
+            p_ok = False
     # B
     exe = build_harness(ctx, "asan")
     if exe is None:
@@ -455,7 +462,7 @@ def run(ctx):
     # K: observation engine
     t0 = time.time()
     corpus, plain = build_corpus(ctx, exe)
-    target = 13000 if quick else 75000
+    target = 30000 if quick else 220000
     lines = gen_ops(ctx, corpus, target)
     ctx.log("corpus %d files, %d op lines (%.1fs)" % (sum(len(v) for v in corpus.values()), len(lines), time.time() - t0))
     parts = vlib.chunks(lines, vlib.NCPU * 4)
